@@ -526,12 +526,31 @@ fn c05_verify(ctx: &mut Ctx, bytes: &[u8], dmg: &str, rs_alt: &Option<RefStream>
         let honest = match rs_alt {
             Some(rs) => {
                 let pcm = rs.pcm();
-                // the decoder stops at the declared total; so does refflac
-                rs.is_valid() && refflac::pcm_md5(&pcm, rs.meta.si.bps) == rs.meta.si.md5
+                // the decoder stops at the declared total; so does refflac.
+                // A checksum-consistent edit can decode to samples outside the bit depth; how such a
+                // sample is serialised to bytes is not defined (the crate's 24-bit serialiser does not
+                // simply truncate), so the digest of such a stream is not judged.
+                let out_of_range = rs.strict.iter().any(|x| x.contains("does not fit"));
+                if out_of_range {
+                    probe("c05_md5_not_judged_samples_out_of_range");
+                }
+                rs.is_valid() && (out_of_range || refflac::pcm_md5(&pcm, rs.meta.si.bps) == rs.meta.si.md5)
             }
             None => false,
         };
         if !honest {
+            if let Some(rs) = rs_alt {
+                let cr = decode_all(Cursor::new(bytes), RKind::SampleToEnd, &Choices::generate(1), 16);
+                ctx.note(|| format!("crate decodes the altered bytes to {:?} (err {:?}); refflac to {:?}; frame subs {:?}; altered bytes {}", cr.samples, cr.err, rs.pcm(), rs.frames.first().map(|f| (&f.subs, f.assignment, f.bps)), hex(bytes)));
+                {
+                    use std::io::Read;
+                    let mut br = flac_codec::decode::FlacByteReader::endian(Cursor::new(bytes), flac_codec::byteorder::LittleEndian).unwrap();
+                    let mut out = Vec::new();
+                    let e = br.read_to_end(&mut out);
+                    ctx.note(|| format!("byte reader output {} ({e:?}); md5 {} ; stored {} ; refflac pcm md5 {}", hex(&out), hex(&md5::compute(&out).0), hex(&rs.meta.si.md5), hex(&refflac::pcm_md5(&rs.pcm(), rs.meta.si.bps))));
+                }
+                ctx.note(|| format!("refflac on the altered bytes: end={:?} hard={:?} strict={:?} frames={} md5_of_ref_pcm_matches={}", rs.end, rs.hard, rs.strict.first(), rs.frames.len(), refflac::pcm_md5(&rs.pcm(), rs.meta.si.bps) == rs.meta.si.md5));
+            }
             return viol(
                 "md5-false-match",
                 format!("{dmg}: verify_reader reports MD5Match but the altered bytes do not decode (per refflac) to PCM with the stored digest"),
@@ -641,6 +660,9 @@ pub fn run(ctx: &mut Ctx) -> R {
     }
     if !ctx.is("C05") || thorough {
         for i in 0..item.bytes.len().div_ceil(16) {
+            if ctx.is("C05") && i * 16 < a {
+                continue;
+            }
             coords.push(Dmg::ZeroSector(i));
         }
         let extra = if thorough { 600 } else { 150 };
@@ -649,9 +671,11 @@ pub fn run(ctx: &mut Ctx) -> R {
             coords.push(Dmg::FlipRepaired(f.min(nbits - 1)));
         }
         for _ in 0..extra / 2 {
-            let x = (rng.next() as usize) % nbits;
-            let y = (rng.next() as usize) % nbits;
-            coords.push(Dmg::DoubleFlip(x, y));
+            // C05 speaks of damage to the audio frames: keep its double flips there
+            let (lo, span) = if ctx.is("C05") { (a * 8, (nbits - a * 8).max(1)) } else { (0, nbits) };
+            let x = lo + (rng.next() as usize) % span;
+            let y = lo + (rng.next() as usize) % span;
+            coords.push(Dmg::DoubleFlip(x.min(nbits - 1), y.min(nbits - 1)));
         }
     }
     let per_coord = if thorough { N_ENTRY } else { 6 };
